@@ -210,6 +210,7 @@ type aggregate struct {
 	complete        bool
 	groupsDone      int
 	crashes         int
+	aborted         string
 }
 
 func (r *runner) run(deadline time.Time) (*aggregate, error) {
@@ -308,7 +309,10 @@ func (r *runner) run(deadline time.Time) (*aggregate, error) {
 					}
 					queue = append([]job{{g, i + 1}}, queue...)
 					if agg.crashes > 400 {
-						return nil, fmt.Errorf("too many worker deaths (%d); last stderr:\n%s", agg.crashes, w.stderr.String())
+						// stop exploring: what was recorded so far is still reported (crashes are violations)
+						agg.complete = false
+						agg.aborted = fmt.Sprintf("exploration stopped after %d worker deaths", agg.crashes)
+						queue = nil
 					}
 					if err := startW(); err != nil {
 						return nil, err
@@ -555,6 +559,11 @@ func CheckMain(id, tier string, seed int64) int {
 	nviol := 0
 	var knownHit, unknown []string
 	os.MkdirAll(filepath.Join(VerifRoot, "replays", id), 0755)
+	if old, _ := filepath.Glob(filepath.Join(VerifRoot, "replays", id, "*.json")); len(old) > 0 {
+		for _, f := range old {
+			os.Remove(f)
+		}
+	}
 	flaky := 0
 	for _, s := range sigs {
 		v := agg.viol[s]
@@ -625,6 +634,9 @@ func CheckMain(id, tier string, seed int64) int {
 		for k, v := range ex.ExtraCoverage(tier, agg.counts) {
 			cov[k] = v
 		}
+	}
+	if agg.aborted != "" {
+		cov["aborted"] = agg.aborted
 	}
 	if !agg.complete {
 		cov["cap"] = fmt.Sprintf("internal deadline of %ds reached: %d of %d groups fully enumerated (groups are ordered simplest-first; unfinished groups report the prefix they covered)", budget, agg.groupsDone, len(r.groups))
